@@ -84,3 +84,9 @@ CLAIMED['C12'] = ('6/C12', 'Bounded-exhaustive symbolic check against an ownersh
                   'class-level Parameter edit, per-instance Selector.objects append, class-level reassignment of the constant; symbolic '
                   'values); after every step all classes and instances are compared with the model (who owns which value / Parameter object).',
                   'symbolic execution (CrossHair+z3) of instance/class value and Parameter-object handling against an ownership model')
+CLAIMED['C14'] = ('6/C14', 'Bounded-exhaustive symbolic check: an instance of Q(P) with constant parameters (one with a None default) and a readonly one; '
+                  'every history of k=3/4 symbolic operations (instance set, update, class set on P/Q, readonly set at three levels, '
+                  'edit_constant ENTER/EXIT/exceptional EXIT nested up to 2, set of name) with objects chosen from a pool by symbolic index; '
+                  'the held object changes only inside edit_constant or by re-assigning the identical object, other attempts raise TypeError, '
+                  'class-level sets leave the instance alone, every constant flag is restored on every exit.',
+                  'symbolic execution (CrossHair+z3) of the constant/readonly guard and edit_constant against an identity model')
